@@ -284,10 +284,10 @@ def rule_one(S):
         if nd['k'] in CALL_KINDS and nd.get('cq') in slot_writers:
             return st + (False,)
         if is_call(nd, cq=Y + 'storeReleaseN') or (nd['k'] == 'BinaryOperator' and nd.get('op') == '=' and
-                                                   (f.strip(f.ch(nd)[0]) or {}).get('name') == 'child_or_v_'):
+                                                   (f.strip(f.ch(nd)[0]) or {}).get('name') == R.field_of(facts, Y + 'link_or_value', 'unsigned long', 'slot word')):
             a = call_args(f, nd) if nd['k'] in CALL_KINDS else f.ch(nd)
             tgt = f.strip(a[0], casts=True)
-            if tgt is not None and tgt.get('name') == 'child_or_v_':
+            if tgt is not None and tgt.get('name') == R.field_of(facts, Y + 'link_or_value', 'unsigned long', 'slot word'):
                 src = root_var(f, a[1])
                 ini = R.var_decl_init(f, src) if src else None
                 from_new = src == newv or (ini is not None and root_var(f, ini) == newv)
